@@ -20,7 +20,7 @@ from . import adflib as A, semjobs
 from .bddprops import ASSUMPTIONS
 
 STRATEGIES = ['grounded', 'complete', 'stable', 'heu_a', 'heu_b', 'nogood:Simple']      # Ground, Complete, Stable, StableCountingA/B, StableNogood
-NAMES = ['a', 'b', 'c', 'd']
+NAMES = ['a', 'sec1.2', 'c$d', 'x y']      # plain, dotted, with a dollar sign, with a blank (quoted labels may contain anything but the quote)
 
 
 def var_container(e, names):
